@@ -24,6 +24,7 @@
 use std::sync::OnceLock;
 use vcore::{Cfg, Check, Cx, Finding, Meta, Tier, Value, Violation, json};
 
+mod ctx;
 mod extra;
 mod impls;
 mod macros;
@@ -382,7 +383,10 @@ fn judge(
         pred.adds.last(),
     ) {
         let rejected = &lib.adds[pred.adds.len() - 1];
-        let before = probe::probes(&pred.state);
+        // (the negative probes of the state before are judged by the history
+        // that ends before the failing add)
+        let before: Vec<probe::Probe> =
+            probe::probes(&pred.state).into_iter().filter(|p| !p.negative).collect();
         let got = probe::run(rt, &before);
         let leaked = probe::rejected_probes(&pred.state, rejected);
         let got_leaked = probe::run(rt, &leaked);
@@ -565,7 +569,7 @@ impl Check for C18 {
         "C18"
     }
     fn units(&self, cfg: &Cfg) -> usize {
-        plan(cfg.tier).units.len() + 1 + impls::n_units() + extra::n_units()
+        plan(cfg.tier).units.len() + 1 + impls::n_units() + extra::n_units() + 1
     }
     fn run_unit(&self, unit: usize, cx: &mut Cx) {
         if !cx.case(vcore::SUB_SETUP) {
@@ -583,7 +587,9 @@ impl Check for C18 {
             return;
         }
         let pl = plan(cx.cfg.tier);
-        if unit > pl.macro_unit + impls::n_units() {
+        if unit > pl.macro_unit + impls::n_units() + extra::n_units() {
+            ctx::run(cx);
+        } else if unit > pl.macro_unit + impls::n_units() {
             extra::run(unit - pl.macro_unit - 1 - impls::n_units(), cx);
         } else if unit > pl.macro_unit {
             impls::run(unit - pl.macro_unit - 1, cx);
@@ -597,6 +603,9 @@ impl Check for C18 {
         let pl = plan(cfg.tier);
         if sub == vcore::SUB_SETUP {
             return json!({"library": "let mut rt = Runtime::new();\n", "uses": [], "model_defects": []});
+        }
+        if unit > pl.macro_unit + impls::n_units() + extra::n_units() {
+            return ctx::describe(sub);
         }
         if unit > pl.macro_unit + impls::n_units() {
             return extra::describe(unit - pl.macro_unit - 1 - impls::n_units(), sub);
@@ -714,7 +723,13 @@ impl Check for C18 {
     }
 }
 
-const MATCHERS: [&str; 6] = [
+const MATCHERS: [&str; 12] = [
+    "type_named_like_builtin_type",
+    "use_in_impl_block_dropped",
+    "use_path_through_imported_name",
+    "failed_add_not_rolled_back",
+    "library_macro_panics_on_invalid_name",
+    "context_field_type_not_registered_here",
     "empty_use_path_panics",
     "use_path_walk_restarts",
     "use_in_module_binds_in_root",
@@ -833,6 +848,74 @@ fn findings_match(f: &Finding, v: &Violation) -> bool {
                 && diff == Some(0)
                 && at(0) == ("err".into(), "ok".into())
                 && c["invalid_names"].as_array().is_some_and(|a| a.len() == 1 && a[0] == "a ")
+        }
+        // declare_runtime_type: "the primitives are already declared" shortcut
+        // taken for ANY type whose name resolves (through the parent scopes)
+        // to a primitive or List
+        "type_named_like_builtin_type" => {
+            let Some(n) = type_names.iter().find(|n| model::BUILTIN_TYPE_NAMES.contains(n)) else {
+                return false;
+            };
+            let in_module = c["library"].as_str().is_some_and(|l| {
+                l.contains("Module::new") && l.contains(&format!("Type::clone::<Val<A>>({n:?}"))
+                    || l.contains("Module::new") && l.contains(&format!("Type::copy::<Val<B>>({n:?}"))
+            });
+            // root: the name is taken, add says Ok
+            (v.class == "add-result"
+                && diff.is_some_and(|i| at(i).0 == "err" && at(i).1 == "ok")
+                && !defects.is_empty()
+                && defects.iter().all(|d| {
+                    d["class"] == "duplicate-name"
+                        && d["kind"] == "decl-decl"
+                        && d["at_root"] == true
+                        && d["detail"].as_str().is_some_and(|s| s.starts_with(&format!("`{n}`")))
+                }))
+                // module: the type is never declared; an impl block panics in add,
+                // scripts cannot name it
+                || (in_module
+                    && v.class == "panic"
+                    && error.contains("unwrap")
+                    && error.contains("src/runtime/mod.rs"))
+                || (in_module
+                    && ["unreachable", "compile-panic"].contains(&v.class.as_str())
+                    && probe["script"].as_str().is_some_and(|s| s.contains(&format!(".{n}"))))
+                || (in_module
+                    && v.class == "order-dependence"
+                    && [&v.observed["this_permutation"], &v.observed["first_permutation"]]
+                        .iter()
+                        .any(|s| s.as_str().is_some_and(|s| s.contains("unwrap") && s.contains("src/runtime/mod.rs"))))
+        }
+        // declare_methods skips Item::Use, declare_imports skips Item::Impl
+        "use_in_impl_block_dropped" => {
+            v.class == "unreachable"
+                && uses.iter().any(|u| u["in_impl"] == true && probe["via_use"] == u["id"])
+        }
+        // get_scope_of looks at the declarations of a scope only, never at its imports
+        "use_path_through_imported_name" => {
+            v.class == "add-result"
+                && diff.is_some_and(|i| at(i) == ("ok".into(), "err".into()))
+                && uses.iter().any(|u| {
+                    let p = path_of(u);
+                    p.len() >= 2
+                        && error == format!("Could not get scope of {}", p[0])
+                        && uses.iter().any(|w| w["id"] != u["id"] && path_of(w).last() == Some(&p[0]))
+                })
+        }
+        // Rt::add mutates the runtime pass by pass and bails out at the first error
+        "failed_add_not_rolled_back" => v.class == "failed-add-not-rolled-back",
+        // library! unwraps every constructor
+        "library_macro_panics_on_invalid_name" => {
+            v.class == "panic"
+                && c["library_macro"].is_string()
+                && error.contains("library add failed")
+                && c["invalid_names"].as_array().is_some_and(|a| !a.is_empty())
+        }
+        // register_context_type asks the process-wide TypeRegistry, not this runtime
+        "context_field_type_not_registered_here" => {
+            c["family"] == "context-type"
+                && v.class == "add-result"
+                && ms == ["err"]
+                && os == ["ok"]
         }
         _ => false,
     }
